@@ -1,4 +1,10 @@
+import os
+import sys
+
 from runner import H
+
+sys.path.insert(0, os.path.join(os.path.dirname(os.path.dirname(os.path.abspath(__file__))), "mir2smt"))
+import driver  # noqa: E402
 
 F_PACK = ["apollo_compiler::parser::TaggedFileId::pack", "TaggedFileId::tag", "TaggedFileId::file_id"]
 F_NEW = ["apollo_compiler::parser::FileId::new", "FileId::reset", "FileId::const_new"]
@@ -23,10 +29,18 @@ SPEC = {
         H("c31_reset", functions=F_NEW, domain="every counter value, reset then one call", bound="no loop iteration beyond 1"),
         H("c31_twin_must_fail", functions=F_PACK, domain="vacuity twin", bound="-", expect="twin"),
     ],
+    "pre": driver.c31_pre,
+    "replay_smt": lambda rep: driver.replay_saved(rep),
+    "engine": "Kani 0.68 / CBMC 6.11 (cadical) + MIR->SMT (z3 4.8.12, cvc5 1.0.3)",
     "stubs": [],
     "assumptions": [
         "Kani sequentialises atomics: the Kani harnesses decide the sequential semantics of FileId::new only; "
         "interleavings are decided by engine E2 (MIR -> SMT) in the same check",
+        "E2: sequential consistency for the single shared word NEXT (orderings in the source are AcqRel/Release on one location; "
+        "weaker orderings add no behaviours for read-modify-write operations on a single location: stated, not checked)",
+        "E2: interleaving bounds T threads x k calls: (2,2) quick; (2,2),(3,2),(2,3) thorough; every atomic call found in the MIR of "
+        "FileId::new / FileId::reset is one step, an unknown atomic primitive or unmodelled call makes the run inconclusive",
+        "E2: NonZero::new_unchecked / get / Option::unwrap / NonZero::new are modelled by their documented semantics",
         "counter value 0 is excluded (no history reaches it: the counter starts at 3 and restarts at 3)",
         "ids handed out before the 63-bit counter wraps (the property's own exclusion)",
     ],
